@@ -31,6 +31,23 @@ enum Bit : unsigned {
 
 inline double nan_() { return std::numeric_limits<double>::quiet_NaN(); }
 inline void tag(const Data &d, const char *t) { if (d.log) d.log->push_back(t); }
+
+// Work vectors: a provider that is handed scratch storage `work_n` ∈ ℝⁿ / `work_m` ∈ ℝᵐ may use all
+// of it and may leave anything in it.  Every provider function of this harness therefore (a) checks
+// the size it was given against n resp. m — a mismatch is reported as a `WORKERR:…` token in the call
+// log (which the model never prints), not by aborting — and (b) overwrites the whole vector with a
+// recognisable pattern before returning, so that a caller relying on workspace contents, or handing
+// over a buffer of the wrong length, is exposed.  Through a raw pointer (C ABI) the size is unknown
+// (`size < 0`): the documented length is written; the harness puts guard cells behind its buffers.
+constexpr double WORK_PATTERN = -7.25e77;
+inline void work_vec(const Data &d, const char *fn, const char *which, double *p, long size, long want) {
+    if (size >= 0 && size != want && d.log)
+        d.log->push_back(std::string("WORKERR:") + fn + ":" + which + ":size=" + std::to_string(size) +
+                         ":want=" + std::to_string(want));
+    long k = size >= 0 ? size : want;
+    for (long i = 0; i < k; ++i)
+        p[i] = WORK_PATTERN;
+}
 inline bool same_x(const Data &d, const double *x) {
     for (long i = 0; i < d.n; ++i)
         if (!(x[i] == d.x[i]))
